@@ -61,7 +61,7 @@ def run_property(prop: str, tier: str, repo: str, seed: int, args) -> int:
 
     t0 = time.time()
     eng = Engine(repo)
-    keys = [k for k, ct in eng.reg.contracts.items() if prop in ct.props and not k.startswith(("virtual:", "ctor:"))]
+    keys = [k for k, ct in eng.reg.contracts.items() if (prop in ct.props or prop in ct.extra_props) and not k.startswith(("virtual:", "ctor:"))]
     if args.only:
         keys = [k for k in keys if args.only in k]
     timeout_ms = 10000 if tier == "quick" else 20000
@@ -76,6 +76,8 @@ def run_property(prop: str, tier: str, repo: str, seed: int, args) -> int:
             pr = o["meta"].get("props")
             if pr and prop not in pr:
                 continue        # clause belongs to other properties of the same function
+            if prop not in eng.reg.contracts[r["key"]].props and not (pr and prop in pr):
+                continue        # the function is run for this property only because of its clauses tagged with it
             by_oid[o["oid"]].append((r, o))
     status: dict[str, str] = {}
     for oid, lst in by_oid.items():
